@@ -1,6 +1,7 @@
 package main
 
 import (
+	"net/url"
 	"fmt"
 	"go/token"
 	"go/types"
@@ -535,6 +536,44 @@ func init() {
 			}
 			return stBound(st, in)
 		},
+		"(*bytes.Reader).Read": func(ex *Exec, st *State, args []Value, in *ssa.Call, pos token.Pos) bool {
+			// an in-memory reader returns exactly min(len(p), available) bytes
+			id, ok := ex.streamOf(st, args[0])
+			if !ok {
+				panic("bytes.Reader.Read on unknown reader")
+			}
+			buf := args[1].(SliceV)
+			rem := ex.remaining(st, id)
+			some, none := ex.fork(st, And(Ult(Const(64, 0), rem), Ult(Const(64, 0), buf.Len)))
+			if none != nil {
+				// nothing available (end of stream) or empty buffer
+				eof, empty := ex.fork(none, Eq(ex.remaining(none, id), Const(64, 0)))
+				if eof != nil {
+					setRes(eof, in, TupleV{Const(64, 0), errVal("io.EOF")})
+					if eof != st {
+						ex.work = append(ex.work, eof)
+					}
+				}
+				if empty != nil {
+					setRes(empty, in, TupleV{Const(64, 0), nilErr})
+					if empty != st {
+						ex.work = append(ex.work, empty)
+					}
+				}
+			}
+			if some != nil {
+				r0 := ex.remaining(some, id)
+				k := Ite(Ult(r0, buf.Len), r0, buf.Len)
+				a, off := ex.consume(some, id, k)
+				ba, _ := ex.sliceArr(some, buf)
+				some.heap[buf.Obj] = &Obj{Val: ArrV{ACopy(ba.A, buf.Off, a, off, k), ba.N, ba.ElW}}
+				setRes(some, in, TupleV{k, nilErr})
+				if some != st {
+					ex.work = append(ex.work, some)
+				}
+			}
+			return stBound(st, in)
+		},
 		"golang.org/x/sys/unix.Getpagesize": func(ex *Exec, st *State, args []Value, in *ssa.Call, pos token.Pos) bool {
 			setRes(st, in, Const(64, 4096))
 			return true
@@ -585,13 +624,24 @@ func init() {
 			}
 			buf := args[1].(SliceV)
 			n := buf.Len
+			var outs []*State
 			okS, shortS := ex.fork(st, Ule(n, ex.remaining(st, id)))
 			if shortS != nil {
+				// nothing left: io.EOF; some but not enough: io.ErrUnexpectedEOF with the bytes copied
 				rem := ex.remaining(shortS, id)
-				ex.consume(shortS, id, rem)
-				setRes(shortS, in, TupleV{rem, errVal("io.ErrUnexpectedEOF")})
-				if okS != nil {
-					ex.work = append(ex.work, shortS)
+				eofS, partS := ex.fork(shortS, Eq(rem, Const(64, 0)))
+				if partS != nil {
+					a, off := ex.consume(partS, id, rem)
+					if buf.Obj != 0 {
+						ba, _ := ex.sliceArr(partS, buf)
+						partS.heap[buf.Obj] = &Obj{Val: ArrV{ACopy(ba.A, buf.Off, a, off, rem), ba.N, ba.ElW}}
+					}
+					setRes(partS, in, TupleV{rem, errVal("io.ErrUnexpectedEOF")})
+					outs = append(outs, partS)
+				}
+				if eofS != nil {
+					setRes(eofS, in, TupleV{Const(64, 0), errVal("io.EOF")})
+					outs = append(outs, eofS)
 				}
 			}
 			if okS != nil {
@@ -601,9 +651,17 @@ func init() {
 					okS.heap[buf.Obj] = &Obj{Val: ArrV{ACopy(ba.A, buf.Off, a, off, n), ba.N, ba.ElW}}
 				}
 				setRes(okS, in, TupleV{n, nilErr})
-				return okS == st
+				outs = append(outs, okS)
 			}
-			return shortS == st
+			cont := false
+			for _, s := range outs {
+				if s == st {
+					cont = true
+				} else {
+					ex.work = append(ex.work, s)
+				}
+			}
+			return cont
 		},
 		"encoding/binary.Read": func(ex *Exec, st *State, args []Value, in *ssa.Call, pos token.Pos) bool {
 			id, ok := ex.streamOf(st, args[0])
@@ -1307,6 +1365,44 @@ func init() {
 			setRes(st, in, ex.valEq(e, t))
 			return true
 		},
+		"net/url.PathUnescape": func(ex *Exec, st *State, args []Value, in *ssa.Call, pos token.Pos) bool {
+			// identity on a string without '%'; otherwise an error, or some strictly shorter string
+			// (the decoded text: not computed - an arbitrary string carrying what the argument carried)
+			s := args[0].(StringV)
+			if !s.Sym {
+				r, err := url.PathUnescape(s.S)
+				if err != nil {
+					setRes(st, in, TupleV{StringV{}, errVal("url.PathUnescape")})
+				} else {
+					setRes(st, in, TupleV{StringV{S: r}, nilErr})
+				}
+				return true
+			}
+			has := False
+			for i := 0; i < s.Max; i++ {
+				has = Or(has, And(Ult(Const(64, uint64(i)), s.Len), Eq(Select(s.Arr, Const(64, uint64(i))), Const(8, '%'))))
+			}
+			if ex.feasible(st, has) {
+				o := st.clone()
+				o.pc = append(o.pc, has)
+				o.top().env[in] = TupleV{StringV{}, errVal("url.PathUnescape")}
+				ex.work = append(ex.work, o)
+				o2 := st.clone()
+				o2.pc = append(o2.pc, has)
+				ex.fresh++
+				nm := fmt.Sprintf("unesc!%d", ex.fresh)
+				n := ex.namedVar(nm+".len", BV(64))
+				o2.pc = append(o2.pc, Ult(n, s.Len))
+				o2.top().env[in] = TupleV{StringV{Sym: true, Arr: AVar(nm, 8), Len: n, Max: s.Max, U: ex.unsafeTerm(o2, s)}, nilErr}
+				ex.work = append(ex.work, o2)
+			}
+			if !ex.feasible(st, Not(has)) {
+				return false
+			}
+			st.pc = append(st.pc, Not(has))
+			setRes(st, in, TupleV{s, nilErr})
+			return true
+		},
 		"strings.HasPrefix": func(ex *Exec, st *State, args []Value, in *ssa.Call, pos token.Pos) bool {
 			s, p := args[0].(StringV), args[1].(StringV)
 			if !s.Sym && !p.Sym {
@@ -1356,6 +1452,41 @@ func init() {
 		},
 		"strings.Split": func(ex *Exec, st *State, args []Value, in *ssa.Call, pos token.Pos) bool {
 			s, sep := args[0].(StringV), args[1].(StringV)
+			if s.Sym && !sep.Sym && len(sep.S) == 1 && s.Max <= 6 {
+				// a short symbolic string split at a given byte: one path per length and per pattern
+				// of separator positions (<= 2^(Max+1) paths); the pieces keep their symbolic bytes
+				for L := 0; L <= s.Max; L++ {
+					for mask := 0; mask < 1<<uint(L); mask++ {
+						c := Eq(s.Len, Const(64, uint64(L)))
+						for i := 0; i < L; i++ {
+							isSep := Eq(Select(s.Arr, Const(64, uint64(i))), Const(8, uint64(sep.S[0])))
+							if mask&(1<<uint(i)) != 0 {
+								c = And(c, isSep)
+							} else {
+								c = And(c, Not(isSep))
+							}
+						}
+						if c.IsFalse() || !ex.feasible(st, c) {
+							continue
+						}
+						o := st.clone()
+						o.pc = append(o.pc, c)
+						var cells []Value
+						start := 0
+						for i := 0; i <= L; i++ {
+							if i == L || mask&(1<<uint(i)) != 0 {
+								n := i - start
+								cells = append(cells, StringV{Sym: true, Arr: ACopy(AConst(8, 0), Const(64, 0), s.Arr, Const(64, uint64(start)), Const(64, uint64(n))), Len: Const(64, uint64(n)), Max: n, U: s.U})
+								start = i + 1
+							}
+						}
+						n := Const(64, uint64(len(cells)))
+						o.top().env[in] = SliceV{ex.newObj(o, CellsV{cells}), Const(64, 0), n, n}
+						ex.work = append(ex.work, o)
+					}
+				}
+				return false
+			}
 			if s.Sym || sep.Sym {
 				panic("strings.Split of a symbolic string")
 			}
